@@ -33,9 +33,9 @@ def params(draw, tier):
         p["pose"]["rot_mode"] = "zero"
     # small physical units (e.g. metres for micrometre-sized cells) as well as pixel units
     p["pose"]["logscale"] = draw(st.sampled_from([0.0, 0.0, 1.5, -3.0, -5.3, -6.0]))
-    p["grid"] = draw(st.sampled_from([1, 2, 3, 5, 7, 10, 11, 12]))
+    p["grid"] = draw(st.sampled_from([1, 2, 3, 5, 5, 7, 10, 11, 12]))
     p["grid_before"] = draw(st.sampled_from([None, 2, 4, 6]))
-    p["radius"] = draw(st.sampled_from([0.5, 1.0, 1.5, 3.0, 6.0]))
+    p["radius"] = draw(st.sampled_from([0.5, 1.0, 1.0, 1.5, 3.0, 6.0]))
     p["vseed"] = draw(st.integers(0, 2 ** 32 - 1))
     p["pmode"] = draw(st.sampled_from(["random", "random", "uniform", "zero"]))
     p["tmode"] = draw(st.sampled_from(["random", "random", "zero"]))
@@ -174,7 +174,11 @@ def check_case(p, ctx):
         # an earlier evaluation with another grid and radius must not leave anything behind
         call(frame.calculate_stress_tensor, p["grid_before"], radius * 1.5)
         ctx.count("recomputed-after-another-grid")
-    call(frame.calculate_stress_tensor, grid, radius)
+    if grid == 5 and radius == 1.0 and p["vseed"] % 2:
+        call(frame.calculate_stress_tensor)            # documented defaults: 5 bins, one mean cell radius
+        ctx.count("defaults-left-out")
+    else:
+        call(frame.calculate_stress_tensor, grid, radius)
     ps = frame.principal_stress
     xc, yc = frame.stress_tensor[1][0], frame.stress_tensor[1][1]
     Sf = read(frame.stress_tensor[0], grid)
